@@ -25,12 +25,16 @@ def run(ctx):
     rcm = ctx.rule('R-COMMIT', 'SharedPromise::Set constructs the Result (may throw) before it gives the handle away',
                    minimum=2)
     rsh = ctx.rule('R-SHAPE', 'the shared core runs every subscribed callback exactly once and loses none (shape analysis, all list lengths)', minimum=2)
+    rgw = ctx.rule('R-GETWAIT', 'SharedFuture::Get reads the stored Result only after Wait(*this) (or Ready() == true)',
+                   minimum=2)
     rcf = ctx.rule('R-CASFRESH', 'every retry of a compare-exchange re-tests the refreshed expected value against the '
                    'sentinels the first attempt tested', minimum=0)
     for cfg, fb in sorted(fbs.items()):
         ctx.guard(lambda: lib_order.check_cas_fresh(ctx, fb, rcf, lambda f: 'SetCallbackImpl' in f.qn))
         ctx.guard(lambda: lib_shape.check(ctx, fb, rsh, lambda qn: 'SetResultImpl' in qn, 2))
         ctx.guard(lambda: lib_core.check_commit(ctx, fb, rcm))
+        if (ctx.guard(lambda: lib_core.check_get_wait(ctx, fb, rgw, ('yaclib::SharedFutureBase',))) or 0) < 2:
+            ctx.guard(lambda: ctx.broken('R-GETWAIT: SharedFutureBase::Get not instantiated'))
         lib_core.check_after_release(ctx, fb, ra, lambda f: any(x in f.file for x in (
             'shared_core', 'unique_core', 'result_core', 'base_core', 'when/', 'drop_core', 'wait_event')))
         seen = 0
